@@ -3,6 +3,7 @@ package dht
 import (
 	"context"
 	"net"
+	"time"
 
 	"github.com/anacrolix/generics"
 	"github.com/anacrolix/torrent/iplist"
@@ -171,6 +172,72 @@ func VerifC19_RealRangeList() {
 	} else {
 		verifAssert(len(v.sock.sent) == 1 && v.s.NumNodes() == 1, "C19: a source outside every range is served")
 		verifReach("served")
+	}
+	verifReach("end")
+}
+
+// Table maintenance (TableMaintainer: Bootstrap over the table's own contacts, pings of questionable
+// contacts, bucket refresh lookups) with a contact whose address was blocked after it had entered the
+// table, on an active or a passive node: nothing is ever written to the blocked address, the other
+// contact is still worked with, and on a passive node every query written is marked read-only.
+func VerifC19_Maintenance() {
+	verifLimiterAlwaysGrants()
+	passive := verifNondetBool()
+	v := verifStartServer(verifSrvOpt{noSecurity: true, concreteID: true, passive: passive})
+	verifFreezeClock(true)
+	states := []int{verifGood, verifStale}
+	var contacts []verifContact
+	// (TableMaintainer works on the first bucket that is not full and good, i.e. bucket 0 here: the
+	// questionable-contact pings are reached only for a contact of that bucket)
+	for i, b := range []int{0, 3} {
+		c := verifContact{
+			state: states[verifChoice(0, 1)], bucket: b,
+			id:   verifConcreteIDInBucket(v.id, b, byte(i+1)),
+			addr: &net.UDPAddr{IP: net.IP{198, 51, 100, byte(10 + i)}, Port: 2000 + i},
+		}
+		verifAddContact(v, c)
+		contacts = append(contacts, c)
+	}
+	blocked := contacts[verifChoice(0, 1)]
+	bl := &verifBlocklist{}
+	copy(bl.ip[:], blocked.addr.IP.To16())
+	v.s.SetIPBlockList(bl)
+	if verifNondetBool() {
+		v.s.mu.Lock()
+		v.s.lastBootstrap = time.Now()
+		v.s.mu.Unlock()
+	}
+	done := false
+	go func() {
+		v.s.TableMaintainer()
+		done = true
+	}()
+	verifQuiesce()
+	for i := 0; i < 3 && !done && verifFireTimers() > 0; i++ {
+		verifQuiesce()
+	}
+	v.s.Close()
+	verifQuiesce()
+	for i := 0; i < 8 && !done && verifFireTimers() > 0; i++ {
+		verifQuiesce()
+	}
+	verifAssert(done, "C14: TableMaintainer returns once the server is closed")
+	other := 0
+	for _, w := range v.sock.sent {
+		u, ok := w.addr.(*net.UDPAddr)
+		if !ok {
+			continue
+		}
+		verifAssert(!verifSameIP16(u.IP, blocked.addr.IP), "C19: table maintenance never writes to a blocked address")
+		if w.msg.Y == "q" {
+			other++
+			if passive {
+				verifAssert(w.msg.ReadOnly, "C19: every query a passive node sends during table maintenance is marked read-only")
+			}
+		}
+	}
+	if other > 0 {
+		verifReach("worked")
 	}
 	verifReach("end")
 }
